@@ -99,6 +99,16 @@ def history_differs(cls, method, args, kw, primers):
         got = getattr(used, method)(*args, **kw)
         if not bits_equal(ref, got):
             return True
+    # ... and irrespective of what *another* instance of the class did before (state kept on the class or in the module, a mutable default
+    # argument): the primers run on one instance, the call on a new one
+    other = fresh(cls)
+    for m, pa, pk in primers:
+        try:
+            getattr(other, m)(*pa, **pk)
+        except Exception:  # noqa: BLE001
+            pass
+    if not bits_equal(ref, getattr(fresh(cls), method)(*args, **kw)):
+        return True
     return False
 
 
